@@ -905,28 +905,32 @@ def rule_guard_extra(prop, repo):
         ok = False
         why = "loop over the dividend's bits not recognised"
         rows = []
-        if loops:
-            # one iteration is followed from the block that shifts the running remainder (the carry computation), whatever
-            # construct (`for`, `while`, iterator) drives the loop
-            nodes0 = set().union(*loops.values())
-            shifts = [bb for bb, t_ in b.calls() if bb in nodes0 and (t_.get("fn") or {}).get("name") == "mul2"]
-            if len(shifts) == 1:
-                entry = shifts[0]
-        if entry is not None and loops:
-            nodes = set().union(*loops.values())
+
+        def is_mod(x):
+            return strip(x) in (("param", 2), ("init", ("deref", 2)))
+        # one iteration is followed from the block that shifts the running remainder (the carry computation), whatever construct
+        # (`for`, `while`, iterator) drives the loop; a division written as several loops over parts of the dividend (bits the
+        # quotient cannot hold, then the rest) has the same guard in each of them
+        per_loop = []
+        for hdr, nodes in sorted((loops or {}).items()):
+            shifts = [bb for bb, t_ in b.calls() if bb in nodes and (t_.get("fn") or {}).get("name") == "mul2"]
+            inner = [n2 for h2, n2 in loops.items() if h2 != hdr and n2 < nodes]
+            if len(shifts) == 1 and not any(shifts[0] in n2 for n2 in inner):
+                per_loop.append((shifts[0], nodes))
+        if not per_loop and entry is not None and loops:
+            per_loop = [(entry, set().union(*loops.values()))]
+        verdicts = []
+        for start_bb, nodes in per_loop:
             atoms = paths.collect_atoms(b, tb, blocks=sorted(nodes))
             ords = [a for a in atoms if a[0] == "ord"]
             carries = [a for a in atoms if a[0] == "bool" and a[1][0] in ("call", "mutcall") and getattr(a[1][1], "name", "") == "mul2"]
-            # the ordering test of the running remainder against the modulus parameter
-            def is_mod(x):
-                return strip(x) in (("param", 2), ("init", ("deref", 2)))
-            oa = [a for a in ords if is_mod(a[1]) or is_mod(a[2])]
+            oa = [a for a in ords if is_mod(a[1]) or is_mod(a[2])]      # the ordering test of the running remainder against the modulus parameter
             if len(oa) == 1 and len(carries) == 1:
                 oa, ca = oa[0], carries[0]
                 flipped = is_mod(oa[1])
                 bad = []
                 for asg in paths.enumerate_assignments(atoms):
-                    res = paths.simulate(b, tb, paths.Evaluator(asg), start=entry)
+                    res = paths.simulate(b, tb, paths.Evaluator(asg), start=start_bb)
                     sub = bool(res.called(lambda f: f.name == "sub_with_borrow"))
                     o = asg[oa]
                     if flipped:
@@ -935,10 +939,13 @@ def rule_guard_extra(prop, repo):
                     rows.append({"remainder_vs_modulus": o, "carry": asg[ca], "subtracts": sub})
                     if sub != want:
                         bad.append(rows[-1])
-                ok = not bad
-                why = "rows that differ: %s" % bad[:3]
+                verdicts.append(not bad)
+                if bad:
+                    why = "rows that differ: %s" % bad[:3]
             else:
+                verdicts.append(False)
                 why = "expected one remainder/modulus comparison and one carry test in the loop, found %d / %d" % (len(oa), len(carries))
+        ok = bool(verdicts) and all(verdicts)
         R.check(ok, "%s:guard:divrem" % prop, "divrem: subtract ⇔ carry ∨ remainder ≥ modulus does not hold (%s)" % why, b.file_line(), b.rec["path"],
                 sample={"fn": b.rec["path"], "rows": rows[:6], "row_count": len(rows)})
     d2 = F.bodies.get("crate::u256::U256::div2")
